@@ -52,6 +52,15 @@ CASES = [
     (('C16', 'C06', 'C01'), 'select-a-star:fresh-records', 'select a.*', [['1', 'x'], [None, 'y']], None, ['k', 'v'], None, ('ok', [['1', 'x'], [None, 'y']]), {'fresh': True, 'sources': True}),
     (('C16', 'C06', 'C04'), 'select-b-star:fresh-records', 'select b.* join B on a1 == b1', [['1'], ['2']], [['2', 'q'], ['1', None]], None, None, ('ok', [['1', None], ['2', 'q']]), {'fresh': True, 'sources': True}),
     (('C16', 'C06', 'C01'), 'select-star:where:fresh-records', 'select * where a1 is not None', [['1', 'x'], [None, 'y']], None, None, None, ('ok', [['1', 'x']]), {'fresh': True, 'sources': True}),
+    # ---- C05 / C14: a field beyond the column names is still a field of the records that have it (ragged table with names)
+    (('C05', 'C14'), 'update:field-beyond-the-names:guarded', "update a3 = 'x' where NF == 3", [['1', '2'], ['3', '4', '5']], None, ['k', 'v'], None, ('ok+hdr', [['1', '2'], ['3', '4', 'x']], ['k', 'v'])),
+    (('C05', 'C14'), 'update:field-beyond-the-names:subscript', 'update set a[3] = a1 where NF == 3', [['1', '2'], ['3', '4', '5']], None, ['k', 'v'], None, ('ok+hdr', [['1', '2'], ['3', '4', '3']], ['k', 'v'])),
+    (('C05', 'C14'), 'update:field-beyond-the-names:missing', "update a3 = 'x'", [['1', '2', '0'], ['3', '4']], None, ['k', 'v', 'w'], None, ('error', 'RbqlRuntimeError')),
+    # ---- C14 / C09: direct mode: a column name of both tables that the query uses is a parsing error wherever it stands, also as the very last token
+    (('C14', 'C09'), 'direct:ambiguous-name:last-token', 'select a1, b2 join B on a1 == b1 order by foo', [['1', 'p']], [['1', 'q']], ['k', 'foo'], ['j', 'foo'], ('error', 'RbqlParsingError'), {'normalize': False}),
+    (('C14', 'C09'), 'direct:ambiguous-name:where-end', 'select a1 join B on a1 == b1 where k != foo', [['1', 'p']], [['1', 'q']], ['k', 'foo'], ['j', 'foo'], ('error', 'RbqlParsingError'), {'normalize': False}),
+    (('C14', 'C09'), 'direct:ambiguous-name:first-token-of-where', 'select a1 join B on a1 == b1 where foo != k', [['1', 'p']], [['1', 'q']], ['k', 'foo'], ['j', 'foo'], ('error', 'RbqlParsingError'), {'normalize': False}),
+    (('C14', 'C09'), 'direct:shared-name-not-used', 'select k, j join B on a1 == b1', [['1', 'p']], [['1', 'q']], ['k', 'foo'], ['j', 'foo'], ('ok', [['1', '1']]), {'normalize': False}),
     # ---- C05 / C09: there is no field number 0
     (('C05', 'C09'), 'update:zero-subscript', "update a[0] = 'X'", [['1', 'x']], None, None, None, ('error', 'RbqlParsingError')),
     (('C05', 'C09'), 'update:zero-subscript:second', "update a[1] = 'ok', a[0] = 'X' where a1 == '1'", [['1', 'x']], None, None, None, ('error', 'RbqlParsingError')),
